@@ -2,6 +2,7 @@
 import SevenZ.Driver.Util
 import SevenZ.Model.BoolVec
 import SevenZ.Model.Utf16
+import SevenZ.Model.Header
 namespace SevenZ.Driver
 open SevenZ
 
@@ -44,6 +45,15 @@ def primHandler (op : String) (args : List String) : Option String :=
     pure (match Impl.readUtf16 bs with
       | none => "err"
       | some (cs, rest) => s!"ok {showNats (Impl.fixSlash cs)} {toHex rest}")
+  | "crcs.w", [cs] => do
+    let crcs ← parseNats cs
+    pure (toHex (Impl.crcBytes crcs))
+  | "crcs.r", [count, h] => do
+    let n ← count.toNat?
+    let bs ← parseHex h
+    pure (match Impl.pCrcs n bs with
+      | .error _ => "err"
+      | .ok (cs, rest) => s!"ok {showNats cs} {toHex rest}")
   | _, _ => none
 
 end SevenZ.Driver
